@@ -61,6 +61,18 @@ def variants(nums, cc, rng, tier, others=()):
             forms += [up + stripped, cc.lower() + stripped, up + ' ' + stripped, up + '-' + stripped, stripped, up + up + stripped]
             for o in others:
                 forms.append(o.upper() + stripped)
+            # the prefix typed with characters that only become its letters through upper() (ligature fi, long s,
+            # dotless i): upper() may change the length of the text
+            low = cc.lower()
+            odd = []
+            if low == 'fi':
+                odd.append('\ufb01')
+            for a, b in (('s', '\u017f'), ('i', '\u0131')):
+                if a in low:
+                    odd.append(low.replace(a, b))
+                    odd.append(low.replace(a, b).upper())
+            for sp in odd:
+                forms += [sp + stripped, sp + ' ' + stripped]
         for f in list(forms[:6]):
             for _ in range(2 if tier == 'quick' else 6):
                 p = rng.randrange(len(f)) if f else 0
@@ -116,6 +128,8 @@ def rel_work(rel, tier, rng, viols, keys, counters):
             if relname in ('eu.vat', 'vatin>=eu.vat', 'vatin'):
                 y = own_clean(x) or ''
                 tag = '%s:%s' % (relname, y[:2] if y[:2].isalpha() and y[:2].isascii() else '??')
+                if not x.strip()[:2].isascii():
+                    tag = '%s:non-ascii-prefix' % relname   # prefix letters that only upper() turns into a country code
             add(viols, 'C09|%s|%s' % (tag, clause), '%s.validate(%r) -> %r but the constituents give %r %s' % (wrapper, x, got, expected, extra),
                 {'rel': rel, 'wrapper': wrapper, 'x': x})
 
@@ -166,6 +180,8 @@ def rel_work(rel, tier, rng, viols, keys, counters):
                 y = own_clean(x)
                 if y is None or y[:2].lower() not in (cc, 'el' if cc == 'gr' else cc, 'xi' if cc == 'gb' else cc):
                     continue
+                if not x.strip()[:2].isascii():
+                    continue   # the statement only relates vatin to eu.vat for such spellings (checked there)
                 r1 = val(con, y[2:])
                 exp = ('ok', y[:2] + r1[1]) if r1[0] == 'ok' else val(con, y)
                 compare('vatin', 'vatin', x, exp)
